@@ -5,7 +5,7 @@ import Driver.Classify
 Line protocol for the `compose` slice:
   compose br <ft> <frt> <ftc> <fet> <period> <st> <stc> <delay> <t0>      register a breaker instance (ids in order)
   compose bh <cap> | ca | rl smooth <interval> | rl bursty <pp> <period>  register bulkhead / cache / limiter instances
-  compose pol retry <m> <retLast 0|1> <handle> <abort> | pol breaker <id> <handle> | pol bulkhead <id> | pol limiter <id>
+  compose pol retry <m> <retLast 0|1> <handle> <abort> [md] | pol breaker <id> <handle> | pol bulkhead <id> | pol limiter <id>
             | pol fallback v <val> <handle> | pol fallback e <errtree> <handle> | pol cache <id> <key|-> <cacheIf pred|->
             | pol timeout | pol hedge <maxHedges> <cancelOn>
   compose ext <bulkhead id> <k>      hold k permits through the standalone API
@@ -26,12 +26,14 @@ structure St where
   runs : Nat := 0
   events : Nat := 0
   maxStack : Nat := 0
+  md : List Nat := []      -- positions of retry policies with a max duration
   cancelled : Nat := 0     -- runs in which the scripted cancellation fired
 
 def parseItem (s : String) : Option Item :=
   match s.splitOn "," with
-  | [v, e] => (parseErr e).map fun e => ⟨int! v, e, false⟩
-  | [v, e, "B"] => (parseErr e).map fun e => ⟨int! v, e, true⟩
+  | [v, e] => (parseErr e).map fun e => ⟨int! v, e, false, false⟩
+  | [v, e, "B"] => (parseErr e).map fun e => ⟨int! v, e, true, false⟩
+  | [v, e, "S"] => (parseErr e).map fun e => ⟨int! v, e, false, true⟩
   | _ => none
 
 def parseScript (s : String) : List Item :=
@@ -63,6 +65,9 @@ def step (d : St) (toks : List String) : St × Option String :=
     ({ d with w := { d.w with limiters := d.w.limiters ++ [(.bursty ⟨int! pp, int! per⟩, .bursty ⟨int! pp, 0⟩)] } }, none)
   | ["pol", "retry", m, rl, h, a] =>
     ({ d with ps := d.ps ++ [.retry (int! m) (rl == "1") (Classify.parseConds h) (Classify.parseConds a)] }, none)
+  | ["pol", "retry", m, rl, h, a, "md"] =>
+    -- configured with a max duration (shorter than any sleeping outcome, longer than everything else)
+    ({ d with md := d.md ++ [d.ps.length], ps := d.ps ++ [.retry (int! m) (rl == "1") (Classify.parseConds h) (Classify.parseConds a)] }, none)
   | ["pol", "breaker", id, h] => ({ d with ps := d.ps ++ [.breaker (nat! id) (Classify.parseConds h)] }, none)
   | ["pol", "bulkhead", id] => ({ d with ps := d.ps ++ [.bulkhead (nat! id)] }, none)
   | ["pol", "limiter", id] => ({ d with ps := d.ps ++ [.limiter (nat! id)] }, none)
@@ -82,7 +87,7 @@ def step (d : St) (toks : List String) : St × Option String :=
   | op :: ck :: script :: xs =>
     if op != "run" && op != "runa" then (d, some "bad-op") else
     let ctxKey := if ck == "-" then none else if ck == "''" then some "" else some ck
-    let r : Run := { w := d.w, script := parseScript script, ctxKey := ctxKey }
+    let r : Run := { w := d.w, script := parseScript script, ctxKey := ctxKey, mdPos := d.md }
     -- optional scripted cancellation point  x=<fn|sched|pre>:<k>:<ctx|async>
     let r := match xs with
       | [x] =>
